@@ -35,6 +35,9 @@ const (
 	PSocketLeftOpen
 	PIDCollision
 	PChallenge
+	PStopStateTriggered
+	PStopWhileChanBlocked
+	PFlood
 )
 
 var ProbeNames = map[int]string{
@@ -55,6 +58,9 @@ var ProbeNames = map[int]string{
 	PSocketLeftOpen:        "sut_socket_left_open_after_stop",
 	PIDCollision:           "llmnr_id_collision_run_discarded",
 	PChallenge:             "name_challenge_completed",
+	PStopStateTriggered:    "stop_placed_by_internal_state_trigger",
+	PStopWhileChanBlocked:  "stop_while_sut_task_blocked_on_channel",
+	PFlood:                 "burst_of_8_to_40_datagrams_from_one_client",
 }
 
 var scenarioNames = [...]string{"nbns-server", "nbns-udp+tcp", "llmnr-server", "llmnr-client", "llmnr-client+server", "nbns-challenger"}
